@@ -32,8 +32,9 @@ def confirm(sid):
 def main():
     ids = sys.argv[1:]
     only_detect = "--detect-only" in ids
+    only_confirm = "--confirm-only" in ids
     ids = [i for i in ids if not i.startswith("--")]
-    for sid in ids:
+    for sid in ([] if (only_detect or only_confirm) else ids):
         d = os.path.join(ROOT, "seeded", sid)
         os.makedirs(d, exist_ok=True)
         for f in ("patch.diff", "demo.py", "meta.json"):
@@ -51,6 +52,16 @@ def main():
         m = json.load(open(os.path.join(d, "meta.json")))
         prop = re.match(r"(C\d+)", sid).group(1)
         m["property"] = prop
+        if only_confirm:
+            c = conf[sid]
+            m["confirmed_by_maintainer_of_verif"] = {
+                "how": HOW_C, "patch_applies": c.get("applies"), "pytest_summary": c.get("pytest_summary"),
+                "failed_tests": (c.get("failed") or "").strip(),
+                "only_preexisting_environment_failures": (c.get("failed") or "").count("FAILED") == 3,
+                "demo_rc_with_change": c.get("demo_rc_with_change"), "demo_rc_without_change": c.get("demo_rc_without_change"),
+            }
+            json.dump(m, open(os.path.join(d, "meta.json"), "w"), indent=1)
+            continue
         r = subprocess.run([os.path.join(ROOT, "tools", "mutant.py"), os.path.join(d, "patch.diff"), prop],
                            capture_output=True, text=True)
         line = next((l for l in r.stdout.splitlines() if "patch.diff" in l), r.stdout[-200:])
